@@ -95,6 +95,7 @@ impl Boudot2000RangeProof {
         s1: u32,
         s2: u32,
         n: &Integer,
+        statement: &str,
     ) -> ProofSs
     where
         H: Digest,
@@ -125,7 +126,7 @@ impl Boudot2000RangeProof {
         let F = (Integer::from(g_2.pow_mod_ref(x, n).unwrap())
             * Integer::from(h_2.pow_mod_ref(r_2, n).unwrap()))
             % n;
-        let str = w_1.to_string() + &w_2.to_string() + &E.to_string() + &F.to_string();
+        let str = w_1.to_string() + &w_2.to_string() + &E.to_string() + &F.to_string() + statement;
         let hash = <H as Digest>::digest(str);
         // the blinding ranges above are sized for a challenge of t bits
         let challenge =
@@ -154,6 +155,7 @@ impl Boudot2000RangeProof {
         h_2: &Integer,
         n: &Integer,
         proof_ss: &ProofSs,
+        statement: &str,
     ) -> bool
     where
         H: Digest,
@@ -177,7 +179,7 @@ impl Boudot2000RangeProof {
             * &inv_F)
             % n;
 
-        let str = lhs.to_string() + &rhs.to_string() + &E.to_string() + &F.to_string();
+        let str = lhs.to_string() + &rhs.to_string() + &E.to_string() + &F.to_string() + statement;
         let hash = <H as Digest>::digest(str);
         let output =
             Integer::from_digits(hash.as_slice(), Order::MsfBe) % Integer::from(2).pow(Self::t);
@@ -199,6 +201,7 @@ impl Boudot2000RangeProof {
         s1: u32,
         s2: u32,
         n: &Integer,
+        statement: &str,
     ) -> ProofOfS
     where
         H: Digest,
@@ -212,7 +215,8 @@ impl Boudot2000RangeProof {
             % n;
         let r_3 = r_1 - (&r_2 * x).complete();
 
-        let proof_ss = Self::proof_same_secret::<H>(x, &r_2, &r_3, g, h, &F, h, l, t, b, s1, s2, n);
+        let proof_ss =
+            Self::proof_same_secret::<H>(x, &r_2, &r_3, g, h, &F, h, l, t, b, s1, s2, n, statement);
         // proof_of_s = {'E': int(E), 'F': int(F), 'proof_ss': proof_ss}
         ProofOfS {
             E: E.clone(),
@@ -222,7 +226,13 @@ impl Boudot2000RangeProof {
     }
 
     /* Algorithm 4 Verify Proof of Square */
-    fn verify_of_square<H>(proof_of_s: &ProofOfS, g: &Integer, h: &Integer, n: &Integer) -> bool
+    fn verify_of_square<H>(
+        proof_of_s: &ProofOfS,
+        g: &Integer,
+        h: &Integer,
+        n: &Integer,
+        statement: &str,
+    ) -> bool
     where
         H: Digest,
     {
@@ -235,6 +245,7 @@ impl Boudot2000RangeProof {
             h,
             n,
             &proof_of_s.proof_ss,
+            statement,
         )
     }
 
@@ -250,10 +261,16 @@ impl Boudot2000RangeProof {
         s: u32,
         n: &Integer,
         T: u32,
+        statement: &str,
     ) -> ProofLi
     where
         H: Digest,
     {
+        // the commitment this proof is about: part of the challenge, like the statement of the whole range proof. A challenge
+        // that depends on the first message only lets the prover choose the committed value after seeing it.
+        let E = (Integer::from(g.pow_mod_ref(x, n).unwrap())
+            * Integer::from(h.pow_mod_ref(r, n).unwrap()))
+            % n;
         let mut boolean = true;
         let mut C = Integer::from(0);
         let mut D_1 = Integer::from(0);
@@ -272,7 +289,7 @@ impl Boudot2000RangeProof {
                 * Integer::from(h.pow_mod_ref(&nu, n).unwrap()))
                 % n;
 
-            let str = omega.to_string();
+            let str = omega.to_string() + &E.to_string() + statement;
             let hash = <H as Digest>::digest(str);
             C = Integer::from_digits(hash.as_slice(), Order::MsfBe);
 
@@ -305,6 +322,7 @@ impl Boudot2000RangeProof {
         t: u32,
         l: u32,
         b: &Integer,
+        statement: &str,
     ) -> bool
     where
         H: Digest,
@@ -317,7 +335,7 @@ impl Boudot2000RangeProof {
             * &inv_E)
             % n;
 
-        let str = commit.to_string();
+        let str = commit.to_string() + &E.to_string() + statement;
         let hash = <H as Digest>::digest(str);
         let output = Integer::from_digits(hash.as_slice(), Order::MsfBe);
 
@@ -358,6 +376,7 @@ impl Boudot2000RangeProof {
         s1: u32,
         s2: u32,
         T: u32,
+        statement: &str,
     ) -> ProofWt
     where
         H: Digest,
@@ -442,13 +461,13 @@ impl Boudot2000RangeProof {
             % n;
 
         let proof_of_square_a =
-            Self::proof_of_square::<H>(&x_a_1, &r_a_1, g, h, &E_a_1, l, t, &b_square, s, s1, s2_square, n);
+            Self::proof_of_square::<H>(&x_a_1, &r_a_1, g, h, &E_a_1, l, t, &b_square, s, s1, s2_square, n, statement);
         let proof_of_square_b =
-            Self::proof_of_square::<H>(&x_b_1, &r_b_1, g, h, &E_b_1, l, t, &b_square, s, s1, s2_square, n);
+            Self::proof_of_square::<H>(&x_b_1, &r_b_1, g, h, &E_b_1, l, t, &b_square, s, s1, s2_square, n, statement);
         let proof_large_i_a =
-            Self::proof_large_interval_specific::<H>(&x_a_2, &r_a_2, g, h, t, l, &b_rest, s, n, T);
+            Self::proof_large_interval_specific::<H>(&x_a_2, &r_a_2, g, h, t, l, &b_rest, s, n, T, statement);
         let proof_large_i_b =
-            Self::proof_large_interval_specific::<H>(&x_b_2, &r_b_2, g, h, t, l, &b_rest, s, n, T);
+            Self::proof_large_interval_specific::<H>(&x_b_2, &r_b_2, g, h, t, l, &b_rest, s, n, T, statement);
 
         // proof_wt = {
         //     'E_a_1': int(E_a_1), 'E_a_2': int(E_a_2), 'E_b_1': int(E_b_1), 'E_b_2': int(E_b_2),
@@ -480,6 +499,7 @@ impl Boudot2000RangeProof {
         t: u32,
         l: u32,
         T: u32,
+        statement: &str,
     ) -> bool
     where
         H: Digest,
@@ -514,8 +534,8 @@ impl Boudot2000RangeProof {
         }
 
         if E_a_2 == &div_a && E_b_2 == &div_b {
-            let b_s = Self::verify_of_square::<H>(proof_of_square_a, g, h, n)
-                && Self::verify_of_square::<H>(proof_of_square_b, g, h, n);
+            let b_s = Self::verify_of_square::<H>(proof_of_square_a, g, h, n, statement)
+                && Self::verify_of_square::<H>(proof_of_square_b, g, h, n, statement);
             let b_li = Self::verify_large_interval_specific::<H>(
                 proof_large_i_a,
                 E_a_2,
@@ -525,6 +545,7 @@ impl Boudot2000RangeProof {
                 t,
                 l,
                 &b_rest,
+                statement,
             ) && Self::verify_large_interval_specific::<H>(
                 proof_large_i_b,
                 E_b_2,
@@ -534,11 +555,18 @@ impl Boudot2000RangeProof {
                 t,
                 l,
                 &b_rest,
+                statement,
             );
             return b_s && b_li;
         }
 
         false
+    }
+
+    /// What the range proof is about: bases, modulus, bounds and the commitment. It enters every Fiat-Shamir challenge of
+    /// the sub-proofs, so that a proof is valid for this statement only (and not for -E, -g, -h or other bounds).
+    fn statement(g: &Integer, h: &Integer, n: &Integer, a: &Integer, b: &Integer, E: &Integer) -> String {
+        g.to_string() + &h.to_string() + &n.to_string() + &a.to_string() + &b.to_string() + &E.to_string()
     }
 
     /* Algorithm 9 Square Decomposition Range Proof (i.e. Proof without tolerance) from [Boudot2000] on section 3.1.2 */
@@ -566,8 +594,9 @@ impl Boudot2000RangeProof {
 
         let E_prime = Integer::from(E.pow_mod_ref(&(Integer::from(2).pow(T)), n).unwrap());
 
+        let statement = Self::statement(g, h, n, a, b, E);
         let proof_of_tolerance = Self::proof_of_tolerance_specific::<H>(
-            x_prime, r_prime, g, h, n, a, b, t, l, s, s1, s2, T,
+            x_prime, r_prime, g, h, n, a, b, t, l, s, s1, s2, T, &statement,
         );
 
         Self {
@@ -615,6 +644,7 @@ impl Boudot2000RangeProof {
         }
 
         if self.E_prime == Integer::from(self.E.pow_mod_ref(&Integer::from(2).pow(T), n).unwrap()) {
+            let statement = Self::statement(g, h, n, a, b, &self.E);
             let res_verify_ts = Self::verify_of_tolerance_specific::<H>(
                 &self.proof_of_tolerance,
                 g,
@@ -626,6 +656,7 @@ impl Boudot2000RangeProof {
                 t,
                 l,
                 T,
+                &statement,
             );
             return res_verify_ts;
         }
